@@ -15,7 +15,7 @@ Per run (this file):
        1e-4 against the Coq-evaluated coalescent oracle / closed-form selection equilibrium, and stationarity of
        the equilibrium density under further integration.
 """
-import json, math, os, re
+import ast, json, math, os, re
 from fractions import Fraction
 from harness import lib, numgen
 from harness.lib import q, ql, b, zzl
@@ -27,6 +27,40 @@ HEADER = ('From Coq Require Import ZArith QArith List.\n'
 KEY_NU = 'phi_1D:gamma-not-multiplied-by-nu'
 KEY_TINY = 'phi_1D_genic:tiny-gamma-cancellation'
 KEY_COARSE = 'one_pop:coarse-grid-exceeds-1.5pct'
+KEY_WINDOW = 'phi_1D:overflow-guard-window'
+LN_DBL_MAX = 709.782712893384
+
+def read_guard(ctx):
+    """the overflow guard of the general-h path, read off the current source of PhiManip.phi_1D:
+         if gamma < 0 and numpy.isinf(numpy.exp(-2*gamma)):   -> threshold ln(DBL_MAX)
+         if gamma < 0 and -2*gamma > <number>:                -> threshold <number>
+    anything else is refused (fail closed)."""
+    try:
+        tree = ast.parse(open(os.path.join(lib.REPO, 'dadi', 'PhiManip.py')).read())
+        fn = [n for n in tree.body if isinstance(n, ast.FunctionDef) and n.name == 'phi_1D'][0]
+        found = []
+        for node in ast.walk(fn):
+            if isinstance(node, ast.If) and isinstance(node.test, ast.BoolOp) and isinstance(node.test.op, ast.And) and len(node.test.values) == 2:
+                a, bb = node.test.values
+                if ast.unparse(a).replace(' ', '') != 'gamma<0':
+                    continue
+                body = ast.unparse(node.body[0]).replace(' ', '') if len(node.body) == 1 else ''
+                if body != 'Qadjust=-2*gamma':
+                    continue
+                t = ast.unparse(bb).replace(' ', '')
+                if t in ('numpy.isinf(numpy.exp(-2*gamma))', 'np.isinf(np.exp(-2*gamma))'):
+                    found.append(LN_DBL_MAX)
+                else:
+                    m = re.fullmatch(r'-2\*gamma>(\d+(?:\.\d*)?)', t)
+                    if m:
+                        found.append(float(m.group(1)))
+        if len(found) != 1:
+            raise ValueError('overflow guard of phi_1D not recognised (%r)' % (found,))
+        ctx.obligation('translate the overflow guard of PhiManip.phi_1D (Qadjust iff gamma < 0 and -2*gamma > %r)' % found[0], True, 'translator')
+        return found[0]
+    except Exception as e:
+        ctx.obligation('translate the overflow guard of PhiManip.phi_1D', False, 'translator', repr(e))
+        return LN_DBL_MAX
 
 # ------------------------------------------------------------------------------------------------
 # (i) density
@@ -34,7 +68,7 @@ KEY_COARSE = 'one_pop:coarse-grid-exceeds-1.5pct'
 G_FORCED = [0.0, 1e-8, -1e-8, 1e-4, -1e-4, 0.01, -0.01, 0.5, -1.0, 3.0, -10.0, 40.0, -100.0, 250.0,
             299.9, 300.0, 300.1, -299.9, -300.0, -300.1, -354.0, -356.0, 600.0, 1e3, -1e3, -1e4, -1e5, -1e6]
 H_FORCED = [0.5, 0.0, 0.2, 0.5 - 1e-9, 0.5 + 1e-9, 1.0]
-OVF = 709.782712893384 / 2        # |g| at which exp(-2g) overflows
+OVF = LN_DBL_MAX / 2        # |g| at which exp(-2g) overflows (module default; density_part uses the guard read from the source)
 TINY = 1e-5                      # below: 1 - exp(-2 g (1-x)) loses more than 1e-7 to cancellation in float64 (grids reach 1-x ~ 4e-4)
 
 def g_eff(c):
